@@ -13,7 +13,7 @@ from . import sym
 from .sym import SymRef, SymBool, SymInt, SymVal, SymName, MV, PyExc, EngineLimit, RefS, ValS, EMPTY, SymDict
 from .models import NParameter, NSignature, ParamsView, PO, POK, VP, KWO, VK
 
-EVALIN = z3.Function('evalin', ValS, RefS, ValS)      # value of an annotation expression in a function's globals
+EVALIN = sym.EVALIN      # value of an annotation expression in a function's globals
 
 
 class FlagWord:
